@@ -46,6 +46,10 @@ def scenarios(ctx):
                             if w["truth"][s_][ci][x][hap] == 1 and rng.random() < 0.7:
                                 w["reads"].append({"sample": s_, "chrom": ci, "hap": hap, "first": rng.randint(0, x - 1), "last": rng.randint(x + 1, len(ch["sites"]) - 1),
                                                    "gap": None, "tight": x, "copies": rng.randint(1, 2)})
+        if rng.random() < 0.3:
+            for r_ in w["reads"]:              # spliced alignments: the gap of a fragment becomes a reference skip (N)
+                if r_.get("gap") and rng.random() < 0.6:
+                    r_["splice"] = True
         if rng.random() < 0.2:
             w["two_bams"] = True
         if rng.random() < 0.1:
